@@ -23,9 +23,11 @@
 (* TLC decides the invariants for operation sequences of every length.     *)
 (*                                                                         *)
 (* `form` restricts the sequences to those a macro expansion can produce   *)
-(* (macros/src/span.rs): "plain" = #[span] without result levels, "result" *)
-(* = with ok_lvl / err_lvl, "guard" = with the `guard:` parameter; "none"  *)
-(* = the guard used directly, any order and multiplicity.                  *)
+(* (macros/src/span.rs): "plain" = #[span] without result levels, "setup"  *)
+(* = plain with a `setup:` function, "result" = with ok_lvl / err_lvl,     *)
+(* "resultM" = result with an `err:` mapper, "guard" = with the `guard:`   *)
+(* parameter, "newspan" = new_span! and manual handling of the guard;      *)
+(* "none" = SpanGuard::new used directly, any order and multiplicity.      *)
 (***************************************************************************)
 EXTENDS Naturals, Sequences, FiniteSets, TLC, Json
 
@@ -37,8 +39,9 @@ CONSTANTS
     WithComps,   \* completions with_completion may be given
     CwComps,     \* completions complete_with may be given
     Scripts,     \* clock scripts <<reading at 1st now(), reading at 2nd now()>>, 0 = None
-    Forms,       \* subset of {"none", "plain", "result", "guard"}
+    Forms,       \* subset of {"none", "plain", "setup", "result", "resultM", "guard", "newspan"}
     Frames,      \* subset of {"in", "out"}: operations run inside / after the span's frame
+    MaxLen,      \* 0, or: at most MaxLen non-terminal operations after New (hist in the view)
     F2Bug,       \* TRUE: transcribe with_completion as found (defect F2)
     Emit         \* TRUE: print one REPLAY line per transition
 
@@ -47,7 +50,7 @@ NoR == 0
 
 \* the default completions (span::completion::Default) and their configuration
 DefaultKinds == {"dflt", "dfltL"}
-ResultKinds == {"ok", "err"}
+ResultKinds == {"ok", "err", "errM"}     \* errM: the error passed through an `err:` mapper
 CfgLvl(c) == IF c = "dfltL" THEN "info" ELSE "none"        \* with_lvl
 CfgPanicLvl(c) == IF c = "dfltL" THEN "warn" ELSE "none"   \* with_panic_lvl
 
@@ -68,6 +71,8 @@ vars == <<phase, g, calls, ret, npos, script, form, frame, verdict, aStarted,
           aMdl, aName, aProps, aComp, aTerm, hist>>
 view == <<phase, g, calls, ret, npos, script, form, frame, verdict, aStarted,
           aMdl, aName, aProps, aComp, aTerm>>
+\* for bounded enumeration of *all* sequences (MaxLen > 0) the history is part of the state
+viewAll == vars
 
 NoGuard == [st |-> "Completed", hasData |-> FALSE, mdl |-> "m0", name |-> "n0",
             props |-> [a |-> 0, m |-> FALSE], comp |-> NoComp, startR |-> NoR]
@@ -82,12 +87,13 @@ BLvl(c, pan) ==
     THEN IF pan THEN (IF CfgPanicLvl(c) # "none" THEN CfgPanicLvl(c) ELSE "error")
          ELSE CfgLvl(c)
     ELSE IF c = "ok" THEN "debug"      \* ok_lvl of the fixtures
-    ELSE IF c = "err" THEN "warn"      \* err_lvl of the fixtures
+    ELSE IF c \in {"err", "errM"} THEN "warn"      \* err_lvl of the fixtures
     ELSE "na"
 BErr(c, pan) ==
     IF c \in DefaultKinds THEN (IF pan THEN "panicked" ELSE "none")
     ELSE IF c = "ok" THEN "none"
     ELSE IF c = "err" THEN "some"
+    ELSE IF c = "errM" THEN "mapped"   \* what the mapper returned
     ELSE "na"
 
 \* Timer::extent
@@ -112,14 +118,24 @@ CompleteDefault(gr, pan, np) ==
 -----------------------------------------------------------------------------
 (* which operations a form admits *)
 Builder(op) == op \in {"WithMdl", "WithName", "WithProps", "MapProps", "WithCompletion"}
+TerminalOp(op) == op \in {"Complete", "CompleteWith", "CompleteWithResult", "Drop",
+                           "DropWhilePanicking"}
+\* operations that keep the guard's type (a function body holding the macro's guard can
+\* apply them in a loop)
+TypeKeeping == {"Start", "WithMdl", "WithName", "Complete", "CompleteWith", "Drop",
+                "DropWhilePanicking"}
 Allowed(op) ==
     /\ phase = "live"
+    /\ MaxLen = 0 \/ TerminalOp(op) \/ Len(hist) <= MaxLen
     /\ IF form = "none" THEN TRUE
+       ELSE IF form = "newspan" THEN op \in TypeKeeping   \* new_span!: nothing is automatic
        ELSE IF g.st = "Initial" THEN op = "Start"     \* the expansion starts the guard first
-       ELSE IF form = "plain" THEN op \in {"Drop", "DropWhilePanicking"}
-       ELSE IF form = "result" THEN op \in {"CompleteWithResult", "DropWhilePanicking"}
-       ELSE op \in {"Start", "WithMdl", "WithName", "Complete", "CompleteWith", "Drop",
-                    "DropWhilePanicking"}
+       ELSE IF form \in {"plain", "setup"} THEN op \in {"Drop", "DropWhilePanicking"}
+       ELSE IF form \in {"result", "resultM"}
+            THEN op \in {"CompleteWithResult", "DropWhilePanicking"}
+       ELSE op \in TypeKeeping
+\* forms in which the body has the guard in hand (explicit terminal operations)
+HandForms == {"none", "guard", "newspan"}
 
 Rec(op, a, x) == [op |-> op, a |-> a, x |-> x]
 Obs(h, en, r, n) == [op |-> h.op, a |-> h.a, x |-> h.x, en |-> en, ret |-> r, n |-> n]
@@ -219,28 +235,37 @@ Terminal(opname, arg, x, first, pan, hasRet) ==
        /\ UNCHANGED <<script, form, frame, verdict, aStarted, aMdl, aName, aProps, aComp>>
 
 \* complete(): complete_default, then drop
-Complete ==
+\* pan: called while the thread is unwinding (from the Drop of another value); the
+\* default completion looks at std::thread::panicking() whoever calls it
+Complete(pan) ==
     /\ Allowed("Complete")
-    /\ LET cd == CompleteDefault(g, FALSE, npos)
-       IN Terminal("Complete", "", "", <<cd[1], cd[2], Taken(g)>>, FALSE, TRUE)
-    /\ aTerm' = [op |-> "Complete", c |-> NoComp, pan |-> FALSE]
+    /\ pan => form \in HandForms
+    /\ LET cd == CompleteDefault(g, pan, npos)
+       IN Terminal("Complete", "", IF pan THEN "pan" ELSE "", <<cd[1], cd[2], Taken(g)>>,
+                   pan, TRUE)
+    /\ aTerm' = [op |-> "Complete", c |-> NoComp, pan |-> pan]
 
 \* complete_with(c): the triple again, but the argument is called
-CompleteWithAs(opname, c, x) ==
+CompleteWithAs(opname, c, x, pan) ==
     /\ Allowed(opname)
     /\ LET first == IF Fires(g)
-                    THEN <<(<<CallOf(g, c, Reading(npos + 1), FALSE)>>), npos + 1, Taken(g)>>
+                    THEN <<(<<CallOf(g, c, Reading(npos + 1), pan)>>), npos + 1, Taken(g)>>
                     ELSE <<(<<>>), npos, Taken(g)>>
-       IN Terminal("CompleteWith", c, x, first, FALSE, TRUE)
-    /\ aTerm' = [op |-> "CompleteWith", c |-> c, pan |-> FALSE]
+       IN Terminal("CompleteWith", c, x, first, pan, TRUE)
+    /\ aTerm' = [op |-> "CompleteWith", c |-> c, pan |-> pan]
 
-CompleteWith(c) == c \notin ResultKinds /\ CompleteWithAs("CompleteWith", c, "")
+CompleteWith(c, pan) ==
+    /\ c \notin ResultKinds
+    /\ pan => form \in HandForms
+    /\ CompleteWithAs("CompleteWith", c, IF pan THEN "pan" ELSE "", pan)
 \* the result-aware completions generated by the macro; x names the exit path of the body
 CompleteWithResult(c, x) ==
     /\ c \in ResultKinds \cap CwComps
-    /\ IF form = "none" THEN x = ""
+    /\ c \in (IF form = "resultM" THEN {"ok", "errM"} ELSE {"ok", "err"})
+    /\ IF form = "none" THEN x \in {"", "pan"}
        ELSE x \in (IF c = "ok" THEN {"ok", "early_ok"} ELSE {"q_err", "early_err"})
-    /\ CompleteWithAs(IF form = "none" THEN "CompleteWith" ELSE "CompleteWithResult", c, x)
+    /\ CompleteWithAs(IF form = "none" THEN "CompleteWith" ELSE "CompleteWithResult", c, x,
+                      x = "pan")
 
 DropAs(opname, pan, x) ==
     /\ Allowed(opname)
@@ -248,7 +273,7 @@ DropAs(opname, pan, x) ==
     /\ aTerm' = [op |-> opname, c |-> NoComp, pan |-> pan]
 
 Drop(x) ==
-    /\ IF form = "plain" THEN x \in {"ret", "early"} ELSE x = ""
+    /\ IF form \in {"plain", "setup"} THEN x \in {"ret", "early"} ELSE x = ""
     /\ DropAs("Drop", FALSE, x)
 DropWhilePanicking ==
     /\ phase = "live"
@@ -263,9 +288,9 @@ Next ==
     \/ \E v \in PropVals : WithProps(v)
     \/ MapProps
     \/ \E c \in WithComps : WithCompletion(c)
-    \/ Complete
-    \/ \E c \in CwComps : CompleteWith(c)
-    \/ \E c \in ResultKinds, x \in {"", "ok", "early_ok", "q_err", "early_err"} :
+    \/ \E pan \in BOOLEAN : Complete(pan)
+    \/ \E c \in CwComps, pan \in BOOLEAN : CompleteWith(c, pan)
+    \/ \E c \in ResultKinds, x \in {"", "pan", "ok", "early_ok", "q_err", "early_err"} :
             CompleteWithResult(c, x)
     \/ \E x \in {"", "ret", "early"} : Drop(x)
     \/ DropWhilePanicking
@@ -285,10 +310,17 @@ ALvl(c, pan) ==
     IF c \in DefaultKinds
     THEN IF pan THEN (IF c = "dfltL" THEN "warn" ELSE "error")
          ELSE (IF c = "dfltL" THEN "info" ELSE "none")
-    ELSE IF c = "ok" THEN "debug" ELSE IF c = "err" THEN "warn" ELSE "na"
+    ELSE IF c = "ok" THEN "debug" ELSE IF c \in {"err", "errM"} THEN "warn" ELSE "na"
+\* errM: "the mapped error must be the err of the completed span"
 AErr(c, pan) ==
     IF c \in DefaultKinds THEN (IF pan THEN "panicked" ELSE "none")
-    ELSE IF c = "ok" THEN "none" ELSE IF c = "err" THEN "some" ELSE "na"
+    ELSE IF c = "ok" THEN "none" ELSE IF c = "err" THEN "some"
+    ELSE IF c = "errM" THEN "mapped" ELSE "na"
+\* The statement gives the panic level and error for the scope-exit path (the guard dropped
+\* by unwinding).  For an explicit complete / complete_with made while unwinding it only
+\* says "exactly once": lvl / err then carry what the code does (level B) and are not part
+\* of the verdict (a difference is reported as drift).
+ALvlAny(t) == t.pan /\ t.op \in {"Complete", "CompleteWith"}
 
 \* the completion the statement predicts once the guard is gone (extentAny = the statement
 \* is silent about the extent when a reading is unavailable)
@@ -297,20 +329,33 @@ AExpected ==
     THEN <<[cid |-> ACid, mdl |-> aMdl, name |-> aName, props |-> aProps,
             extent |-> IF AStartR # NoR /\ AEndR # NoR THEN <<AStartR, AEndR>> ELSE <<>>,
             extentAny |-> ~(AStartR # NoR /\ AEndR # NoR),
-            lvl |-> ALvl(ACid, aTerm.pan), err |-> AErr(ACid, aTerm.pan)]>>
+            lvl |-> ALvl(ACid, aTerm.pan), err |-> AErr(ACid, aTerm.pan),
+            lvlAny |-> ALvlAny(aTerm)]>>
     ELSE <<>>
+
+\* form "setup": the value returned by the `setup:` function is bound before the span is
+\* created and dropped after the body's frame has returned, i.e. after the completion.
+\* Level B: the order follows from the expansion (let __setup = ..; begin_span; call).
+BTrail ==
+    IF form # "setup" \/ phase = "init" THEN <<>>
+    ELSE <<"setup", "new">> \o (IF calls # <<>> THEN <<"complete">> ELSE <<>>)
+         \o (IF phase = "done" THEN <<"setup_drop">> ELSE <<>>)
+ATrail ==
+    IF form # "setup" \/ phase # "done" THEN <<>>
+    ELSE <<"setup", "new">> \o (IF AMustComplete THEN <<"complete">> ELSE <<>>) \o <<"setup_drop">>
+SetupBracketsSpan == phase = "done" => BTrail = ATrail
 
 \* Probes: what the statement predicts for every terminal operation applied to a live
 \* guard.  A non-terminal edge of the graph may be a self-loop at this level (a second
 \* start(), a repeated with_name): replaying the edge alone would not observe a guard the
 \* code corrupted, so the harness follows every such edge by every terminal operation.
 ProbeTerms ==
-    IF phase # "live" \/ form \in {"plain", "result"} \/ (form = "guard" /\ ~aStarted) THEN {}
-    ELSE {[op |-> "Complete", c |-> NoComp, pan |-> FALSE],
-          [op |-> "Drop", c |-> NoComp, pan |-> FALSE],
-          [op |-> "DropWhilePanicking", c |-> NoComp, pan |-> TRUE]}
-         \cup {[op |-> "CompleteWith", c |-> c, pan |-> FALSE] :
-                  c \in IF form = "none" THEN CwComps ELSE CwComps \ ResultKinds}
+    IF phase # "live" \/ form \notin HandForms \/ (form = "guard" /\ ~aStarted) THEN {}
+    ELSE {[op |-> "Complete", c |-> NoComp, pan |-> pan] : pan \in BOOLEAN}
+         \cup {[op |-> "Drop", c |-> NoComp, pan |-> FALSE],
+               [op |-> "DropWhilePanicking", c |-> NoComp, pan |-> TRUE]}
+         \cup {[op |-> "CompleteWith", c |-> c, pan |-> pan] : pan \in BOOLEAN,
+                  c \in IF form = "none" THEN CwComps \ {"errM"} ELSE CwComps \ ResultKinds}
 ProbeCid(t) == IF t.op = "CompleteWith" THEN t.c ELSE aComp
 \* the completion predicted for a terminal operation, up to cid / lvl / err (in Probes)
 ProbeBase ==
@@ -318,15 +363,15 @@ ProbeBase ==
     THEN <<[cid |-> aComp, mdl |-> aMdl, name |-> aName, props |-> aProps,
             extent |-> IF AStartR # NoR /\ AEndR # NoR THEN <<AStartR, AEndR>> ELSE <<>>,
             extentAny |-> ~(AStartR # NoR /\ AEndR # NoR),
-            lvl |-> "na", err |-> "na"]>>
+            lvl |-> "na", err |-> "na", lvlAny |-> FALSE]>>
     ELSE <<>>
-\* <<op, a, ret, n, cid, lvl, err>> (is_enabled stays the verdict)
+\* <<op, a, ret, n, cid, lvl, err, pan, lvlAny>> (is_enabled stays the verdict)
 ProbeOf(t) ==
     <<t.op, IF t.op = "CompleteWith" THEN t.c ELSE "",
       IF t.op \in {"Complete", "CompleteWith"}
       THEN (IF AMustComplete THEN "true" ELSE "false") ELSE "na",
       IF AMustComplete THEN 1 ELSE 0,
-      ProbeCid(t), ALvl(ProbeCid(t), t.pan), AErr(ProbeCid(t), t.pan)>>
+      ProbeCid(t), ALvl(ProbeCid(t), t.pan), AErr(ProbeCid(t), t.pan), t.pan, ALvlAny(t)>>
 Probes == {ProbeOf(t) : t \in ProbeTerms}
 
 TypeOK ==
@@ -370,11 +415,11 @@ RefinesStatement ==
 ProbesAgree ==
     [][phase = "live" /\ phase' = "done" /\ ProbeTerms # {} =>
         \E pr \in Probes :
-            /\ pr[1] = aTerm'.op /\ pr[5] = ACid'
+            /\ pr[1] = aTerm'.op /\ pr[5] = ACid' /\ pr[8] = aTerm'.pan
             /\ Len(AExpected') = pr[4]
             /\ AExpected' # <<>> =>
                  AExpected'[1] = [ProbeBase[1] EXCEPT !.cid = pr[5], !.lvl = pr[6],
-                                                     !.err = pr[7]]]_vars
+                                                     !.err = pr[7], !.lvlAny = pr[9]]]_vars
 
 \* the live guard always holds its data, and is never Completed
 LiveGuardWhole == phase = "live" => g.hasData /\ g.st # "Completed"
@@ -386,6 +431,6 @@ LiveGuardWhole == phase = "live" => g.hasData /\ g.st # "Completed"
 EmitReplay ==
     Emit => PrintT(<<"REPLAY", ToJson([verdict |-> verdict', script |-> script',
                  form |-> form', frame |-> frame', done |-> phase' = "done",
-                 ops |-> hist', expect |-> AExpected',
+                 ops |-> hist', expect |-> AExpected', trail |-> ATrail',
                  probeBase |-> ProbeBase', probes |-> Probes'])>>)
 =============================================================================
